@@ -254,7 +254,7 @@ const (
 //verif:assume-typeassert (*~/pkg/util/vhost.Muxer).getListener$1
 
 //verif:contract (*~/pkg/util/vhost.Muxer).getListener
-//verif:props C06 C07
+//verif:props C06 C07 C01
 func verif_getListener(v *Muxer, name, path, httpUser string) {
 	verif.ResetEvents()
 	l, ok := v.getListener(name, path, httpUser)
